@@ -14,7 +14,7 @@
  R05.7 EmbeddedFS: observers agree on keys and order, index construction registers every ancestor (C18).
 """
 import os
-from ..terms import get_tracer, short, walk, fmt
+from ..terms import get_tracer, short, walk, fmt, fmt_guard
 from ..facts import decode_fmt_template
 from ..pathflow import World
 from ..panics import Discharger, load_records, norm
@@ -209,6 +209,20 @@ def walk_rules(facts, rep, w, D):
                     isdir = True
             if g[0] == "variant" and g[1][0] == "field" and g[1][2] == "file_type" and g[3] == "Directory":
                 isdir = True
+        # ... and every directory item is queued: nothing but the item's type decides (a depth bound, a name filter or a
+        # budget yields a directory whose descendants are then never walked — copy_dir / move_dir / remove_dir_all lose them)
+        extra = []
+        for g in gs:
+            if g[0] in ("bool", "inteq", "intne"):
+                t_ = g[1]
+                about_type = any(x[0] == "field" and x[2] == "file_type" for x in walk(t_)) or \
+                    any(x[0] == "call" and isinstance(x[1], str) and sname(x[1]) in ("is_dir", "is_file") for x in walk(t_))
+                if not about_type:
+                    extra.append(fmt_guard(g)[:70])
+        n += 1
+        rep.ob("R05.3", nb.id, "every directory item is queued for descent (type is the only condition)", not extra, "" if not extra else
+               "the push onto the directory stack also depends on %s: a directory that fails it is yielded but its descendants are "
+               "never visited" % "; ".join(extra), s.line)
         n += 2
         rep.ob("R05.3", nb.id, "the pushed path is the item being yielded", is_item, fmt(v)[:70], s.line)
         rep.ob("R05.3", nb.id, "pushed only if the item's metadata says Directory", isdir, "" if isdir else
@@ -322,10 +336,11 @@ def run(facts, rep, tier, ctx):
     # R05.6
     from ..report import Report
     scratch = Report("x")
-    c01.table_m(facts, scratch, "M", "Mk", ops_filter=("read_dir", "open_file") + c01.TWO_PATH_OPS)
+    c01.table_m(facts, scratch, "M", "Mk", ops_filter=("read_dir", "open_file", "create_dir", "create_file") + c01.TWO_PATH_OPS)
     k = 0
     for o in scratch.obligations:
-        if o["rule"] == "M":
+        # (for the creating operations only the row that keeps "exists iff the parent lists it": the parent is there)
+        if o["rule"] == "M" and (o["key"].split("|")[2].split(":")[0] not in ("create_dir", "create_file") or "'parent exists'" in o["key"]):
             k += 1
             rep.ob("R05.6", o["fn"], o["key"].split("|")[2], o["ok"], o["detail"], o["loc"])
     rep.floor("listable/readable obligations (MemoryFS)", k, 4)
@@ -365,9 +380,9 @@ def run(facts, rep, tier, ctx):
         k += physrules.table_o_shape(facts, A, "R05.6p", wa)
         scratch = Report("xa")
         c01.table_m(facts, scratch, "M", "Mk", self_ty=wa.memory, trait="AsyncFileSystem",
-                    ops_filter=("read_dir", "open_file") + c01.TWO_PATH_OPS)
+                    ops_filter=("read_dir", "open_file", "create_dir", "create_file") + c01.TWO_PATH_OPS)
         for o in scratch.obligations:
-            if o["rule"] == "M":
+            if o["rule"] == "M" and (o["key"].split("|")[2].split(":")[0] not in ("create_dir", "create_file") or "'parent exists'" in o["key"]):
                 k += 1
                 A.ob("R05.6", o["fn"], o["key"].split("|")[2], o["ok"], o["detail"], o["loc"])
         rep.floor("async-world observer obligations", k, 40)
